@@ -342,6 +342,41 @@ fn answer(a: &[&str]) -> String {
                 (other, _) => format!("OTHER {} / {}", other.map(|p| p.short_description().to_string()).unwrap_or_else(|| "no_answer".into()), sv).replace(' ', "_").replacen('_', " ", 1),
             }
         }
+        // wire <pdus rq|rp|ab|pN,...> <read sizes,...|-> -> "OK" | "BAD <why>": the PDUs are written to one byte stream, a reader hands it out in reads of the
+        //   given sizes (then the rest), and dicom_ul::association::read_pdu_from_wire is called once per PDU
+        "wire" => {
+            use dicom_ul::pdu::{write_pdu, AbortRQSource, PDataValue, PDataValueType, Pdu};
+            struct Chunked { data: Vec<u8>, at: usize, sizes: Vec<usize>, k: usize }
+            impl std::io::Read for Chunked {
+                fn read(&mut self, buf: &mut [u8]) -> std::io::Result<usize> {
+                    let left = self.data.len() - self.at;
+                    let want = if self.k < self.sizes.len() { self.sizes[self.k] } else { left };
+                    self.k += 1;
+                    let n = want.min(left).min(buf.len());
+                    buf[..n].copy_from_slice(&self.data[self.at..self.at + n]);
+                    self.at += n;
+                    Ok(n)
+                }
+            }
+            let sent: Vec<Pdu> = a[1].split(',').map(|k| match k {
+                "rq" => Pdu::ReleaseRQ, "rp" => Pdu::ReleaseRP, "ab" => Pdu::AbortRQ { source: AbortRQSource::ServiceUser },
+                p => Pdu::PData { data: vec![PDataValue { presentation_context_id: 1, value_type: PDataValueType::Command, is_last: true, data: vec![0x11; p[1..].parse().unwrap()] }] },
+            }).collect();
+            let mut stream: Vec<u8> = Vec::new();
+            for p in &sent { if write_pdu(&mut stream, p).is_err() { return "BAD write_error".into(); } }
+            let sizes: Vec<usize> = if a[2] == "-" { vec![] } else { a[2].split(',').map(|x| x.parse().unwrap()).collect() };
+            let mut rd = Chunked { data: stream, at: 0, sizes, k: 0 };
+            let mut buf = bytes::BytesMut::new();
+            for (i, p) in sent.iter().enumerate() {
+                match dicom_ul::association::read_pdu_from_wire(&mut rd, &mut buf, 16_378, true) {
+                    Ok(q) if &q == p => {}
+                    Ok(q) => return format!("BAD receive_{}_returned_{}", i + 1, q.short_description()).replace(' ', "_").replacen('_', " ", 1),
+                    Err(e) => return format!("BAD receive_{}_error_{}", i + 1, e).replace(' ', "_").replacen('_', " ", 1),
+                }
+            }
+            if !buf.is_empty() { return format!("BAD {}_bytes_left", buf.len()); }
+            "OK".into()
+        }
         // pdu_big <L>: write an A-ASSOCIATE-RQ holding one unknown user sub-item with L content bytes, then read the bytes back
         "pdu_big" => {
             use dicom_ul::pdu::{read_pdu, write_pdu, AssociationRQ, Pdu, PresentationContextProposed, UserVariableItem};
